@@ -116,11 +116,11 @@ Proof.
   (* a plain return of a pending operation *)
   assert (Hret : forall sh l r, is_panic r = false -> t_pc (c_pool c t) <> PIdle ->
             Q (commit c t sh (set_pc (c_pool c t) PIdle) l [ERet t r []]) /\ no_unw (commit c t sh (set_pc (c_pool c t) PIdle) l [ERet t r []])).
-  { intros sh l r Hr Hni. destruct (t_pc (c_pool c t)) eqn:Ep; [contradiction| | | | | | | | | |];
+  { intros sh l r Hr Hni. destruct (t_pc (c_pool c t)) eqn:Ep; [contradiction| | | | | | | | | | |];
       destruct Hc as (o & older & Hp & Hcr); (apply Hcm; [|discriminate]); apply q_commit; try assumption; cbn [app set_pc t_todo all_rets finals_no_panic];
       try (rewrite (q_evs c I), andb_true_r; eapply ev_ok; eassumption); try apply (q_fin c I); try apply (q_todo c I);
       try (unfold has_buf; cbn [t_buf]; apply (q_buf c I)); try (apply pend_after_ret; exact I). }
-  destruct (t_pc (c_pool c t)) as [|q|q b|q b|q b got|q b got|q b got|q b got| |hm|hm] eqn:Hpc.
+  destruct (t_pc (c_pool c t)) as [|q|q b|q b|q b|q b got|q b got|q b got|q b got| |hm|hm] eqn:Hpc.
   - (* call point *)
     destruct (t_todo (c_pool c t)) as [|o rest] eqn:Htodo.
     + rewrite (istep_idle_nil e c t) by assumption. auto.
@@ -160,6 +160,8 @@ Proof.
   - destruct Hc as (o & older & Hp & Hcr). cbn [entry_of req_of] in Hcr.
     rewrite (istep_ldy e c t q b Hpc). destruct (b =? s_y (c_sh c)); [apply Hkeep; discriminate|].
     destruct (b <? s_y (c_sh c)); [apply (Hfin _ _ _ _ o older Hp Hcr); discriminate|apply Hkeep; discriminate].
+  - destruct Hc as (o & older & Hp & Hcr). cbn [entry_of req_of] in Hcr.
+    rewrite (istep_chkt e c t q b Hpc). destruct (s_f (c_sh c)); [apply (Hfin _ _ _ _ o older Hp Hcr); discriminate|apply Hkeep; discriminate].
   - unfold step. rewrite Hpc. unfold crashes_now. rewrite Hnc.
     destruct (q_mode q); destruct (src_next e (c_sh c)) as [xv|].
     all: try (apply Hkeep; discriminate).
